@@ -27,6 +27,12 @@ func verifC06Payload(code uint16, b []byte, secsAt ...int) {
 	}
 	b1 := m1.ToBytes()
 	verifObserve("reencoded", b1)
+	if code == refFQDN {
+		// RFC 4704 §4.2: a name without the terminating root label is a PARTIAL name, one with it is
+		// fully qualified: re-encoding must not turn one into the other (nor expand or compress
+		// anything): an unmodified FQDN option re-encodes to the bytes it was decoded from
+		verifAssert(verifSame(b1, b), "names-reencode-as-received")
+	}
 	m2, err2 := ParseOption(OptionCode(code), b1)
 	verifAssert(err2 == nil, "reencoded-decodes")
 	if err2 != nil {
